@@ -99,7 +99,9 @@ def sym_call(interp, fn, *args, static_argnums=(), **kw):
     return fn(*a, **k)
 
   closed, out_shape = jax.make_jaxpr(f, return_shape=True)(*placeholders)
-  outs = interp.eval(closed.jaxpr, closed.consts, *[leaves[i].arr for i in pos])
+  from jax._src.interpreters import partial_eval as pe
+  jaxpr, used = pe.dce_jaxpr(closed.jaxpr, [True] * len(closed.jaxpr.outvars))      # drop dead equations
+  outs = interp.eval(jaxpr, closed.consts, *[leaves[i].arr for i, u in zip(pos, used) if u])
   otree = jax.tree_util.tree_structure(out_shape)
   interp.last_jaxpr = closed
   return jax.tree_util.tree_unflatten(otree, outs)
